@@ -41,6 +41,8 @@ var interestingTexts = []string{
 	"<script>&amp;</script>", "\n\t\r", " ", "\u007f", "🙂", "é", "\ufeffbom", "null", "0",
 	"https://psa-verifier.org?a=1&b=<2>", `\u0026`, `a\u003cb\u003e`, `\`, `\\u0026amp;`, "</script>", "\u2028\u2029", `"`, `\"`, "\x7f\x1f", `{"psa-profile":"x"}`,
 	"https://psa-verifier.org", "very long text very long text very long text very long text very long text",
+	// texts that equal member names, keys and profile names
+	"eat-profile", "psa-profile", "psa-client-id", "psa-verification-service-indicator", "x-profile", "timestamp", "PSA_IOT_PROFILE_1", "http://arm.com/psa/2.0.0", "265", "-75000",
 }
 
 func drawText(t *rapid.T, label string, allowEmpty bool) string {
